@@ -187,6 +187,10 @@ def bounded(tier):
             k += 1
     pres = common.pmap(pipeline_case, pcases, chunksize=1)
     fails = {}
+    ucases = upsert_cases()
+    for c, r in zip(ucases, common.pmap(upsert_case, ucases, chunksize=1)):
+        for kind, text in r:
+            fails.setdefault(("upsert", kind, False), (c, text))
     for c, r in zip(ecases, eres):
         for kind, text in r:
             fails.setdefault(("emit", kind, False), (c, text))
@@ -194,7 +198,65 @@ def bounded(tier):
         multi = any(re.search(r"[a-z][A-Z]", e[0]) for e in c[1])
         for kind, text in r:
             fails.setdefault(("pipeline", kind, multi), (c, text))
-    return len(ecases), len(pcases), fails
+    return len(ecases), len(pcases) + len(ucases), fails
+
+
+def upsert_case(case):
+    """
+    upsert_routes into a routes module that already holds a HAND-WRITTEN route of the same app next to the model's path:
+    `decoy` = (method, "collection" | "item").  Afterwards the module must define every requested operation on its own
+    path (POST on the collection route, GET / DELETE on the item route) -- a foreign route on the other path is not it.
+    -> list of (kind, what)
+    """
+    import ast as _ast
+
+    import cdd.sqlalchemy.emit
+    from cdd.compound.openapi.gen_routes import gen_routes, upsert_routes
+    from cdd.shared.source_transformer import to_code
+
+    (name, cols, pk), crud, route, app, (dmeth, dwhere) = case
+    d = tempfile.mkdtemp(prefix="cddvc_c16u_")
+    try:
+        with contextlib.redirect_stderr(io.StringIO()), contextlib.redirect_stdout(io.StringIO()):
+            ir = {"name": name, "doc": "%s entity" % name, "returns": None,
+                  "params": OrderedDict((c, {"typ": t, "doc": "%scolumn %s" % ("[PK] " if c == pk else "", c)}) for c, t in cols)}
+            mp = os.path.join(d, "models.py")
+            open(mp, "wt").write(PRELUDE + to_code(cdd.sqlalchemy.emit.sqlalchemy(ir, class_name=name, emit_repr=False)) + "\n")
+            routes, primary_key = gen_routes(app=app, model_path=mp, model_name=name, crud=crud, route=route)
+            rp = os.path.join(d, "routes.py")
+            dpath = route if dwhere == "collection" else "%s/:%s" % (route, primary_key)
+            open(rp, "wt").write("from bottle import Bottle, request, response\n\n%s = Bottle()\n\n\n@%s.%s(%r)\ndef listing():\n    \"\"\"hand-written\"\"\"\n    return {}\n\n\n" % (app, app, dmeth, dpath))
+            upsert_routes(app=app, routes=routes, routes_path=rp, route=route, primary_key=primary_key)
+            mod = _ast.parse(open(rp).read())
+        have = set()
+        for fn in _ast.walk(mod):
+            if isinstance(fn, _ast.FunctionDef):
+                for dec in fn.decorator_list:
+                    if isinstance(dec, _ast.Call) and isinstance(dec.func, _ast.Attribute) and getattr(dec.func.value, "id", None) == app and dec.args and isinstance(dec.args[0], _ast.Constant):
+                        have.add((dec.func.attr, dec.args[0].value))
+        want = set()
+        if "C" in crud:
+            want.add(("post", route))
+        if "R" in crud:
+            want.add(("get", "%s/:%s" % (route, primary_key)))
+        if "D" in crud:
+            want.add(("delete", "%s/:%s" % (route, primary_key)))
+        missing = sorted(want - have)
+        return [("requested-operation-missing", "crud %r into a module holding a hand-written %s %s: %s not defined afterwards (module has %s)" % (crud, dmeth.upper(), dpath, missing, sorted(have)))] if missing else []
+    except Exception as ex:
+        return [("raises", "%s: %s" % (type(ex).__name__, str(ex)[:200]))]
+    finally:
+        import shutil
+
+        shutil.rmtree(d, ignore_errors=True)
+
+
+def upsert_cases():
+    out = []
+    for i, (dmeth, dwhere) in enumerate((("get", "collection"), ("delete", "collection"), ("put", "collection"), ("post", "item"), ("get", "item"), ("patch", "item"))):
+        for j, crud in enumerate(("CRD", "R", "RD", "C", "CD")):
+            out.append((MODELS[(i + j) % 3], crud, ("/api/config", "/items", "/api/v1/things")[j % 3], ("rest_api", "app")[(i + j) % 2], (dmeth, dwhere)))
+    return out
 
 
 def main(tier, write_baseline=False):
@@ -211,7 +273,19 @@ def main(tier, write_baseline=False):
                 return {"case": json.loads(json.dumps(case)), "what": what[:400], "driver": driver}
         return None
 
-    refuted, s_inputs = run.confirm_or_undecide(refuted, struct_replay)
+    def upsert_replay(_name):
+        # the contract on upsert_routes' "already present" predicate is about a decorator on the wrong path (or of another
+        # app): the real function is run on routes modules that hold exactly such a decorator.  The predicate is a lambda
+        # that reads variables of the enclosing function, which the engine sees as arbitrary values -- so a refutation
+        # counts only if the real function then loses a requested operation (else: undecided)
+        for c_, r_ in zip(upsert_cases(), common.pmap(upsert_case, upsert_cases(), chunksize=1)):
+            bad = [x for x in r_ if x[0] != "raises"]
+            if bad:
+                return {"upsert_case": json.loads(json.dumps(c_)), "what": bad[0][1]}
+        return None
+
+    refuted, s_inputs = run.confirm_or_undecide(refuted, lambda n: upsert_replay(n) if "upsert_routes" in n else struct_replay(n),
+                                                is_rule=lambda n: "/structural/" in n or "upsert_routes" in n)
     if write_baseline:
         common.write_baseline("C16", [n for n, o in run.obligations.items() if o["status"] == "proved"])
     compare_baseline(run, set(run.obligations))
@@ -220,7 +294,7 @@ def main(tier, write_baseline=False):
         ne, npip, fails = bounded(tier)
         run.bounded.append({
             "name": "whole-document oracle on emit.openapi and on models -> gen_routes -> upsert_routes -> openapi_bulk (bounded, NOT counted as proved)",
-            "bound": "%d emit.openapi documents (1..3 models x all non-empty CRUD subsets); %d pipeline documents (7 generated SQLAlchemy models incl. one multi-word name and one inferred *_id key, 1..%d models per document, 3 prefixes, 3 app names)" % (ne, npip, 2 if tier == "quick" else 3),
+            "bound": "%d emit.openapi documents (1..3 models x all non-empty CRUD subsets); %d pipeline documents (7 generated SQLAlchemy models incl. one multi-word name and one inferred *_id key, 1..%d models per document, 3 prefixes, 3 app names) incl. 30 upserts into a routes module that already holds a hand-written route of another method / on the other path" % (ne, npip, 2 if tier == "quick" else 3),
             "rule": "distinct (models, CRUD, prefix, app) combinations",
             "evaluations": ne + npip, "distinct_nontrivial": ne + npip,
             "failures": [{"driver": k[0], "kind": k[1], "what": v[1][:300]} for k, v in list(fails.items())[:5]],
@@ -230,7 +304,7 @@ def main(tier, write_baseline=False):
         if o["name"] in seen:
             continue
         seen.add(o["name"])
-        cand = next((v for k, v in fails.items() if k[0] == "emit"), None) or next(iter(fails.values()), None)
+        cand = next((v for k, v in fails.items() if k[0] == "emit"), None) if "upsert_routes" not in o["name"] else None
         run.violation(o["name"], "obligation refuted by %s on path %s%s" % (o["backend"], " ".join(o["trace"]), "; ".join(o["notes"][:1])),
                       failing_input=s_inputs.get(o["name"]) or ({"case": json.loads(json.dumps(cand[0])), "what": cand[1]} if cand else None), solver_output={"model": o["model"], "smt2": (o["smt2"] or "")[:5000]})
     for (driver, kind, multi), (case, what) in fails.items():
@@ -244,10 +318,13 @@ def replay(path):
     d = json.load(open(path))
     inp = d.get("failing_input") or {}
     print("replaying %s: obligation %s" % (path, d["failed_obligation"]))
-    if "case" not in inp:
+    if "case" not in inp and "upsert_case" not in inp:
         return 1
-    c = inp["case"]
-    if inp.get("driver") == "pipeline":
+    c = inp.get("case")
+    if "upsert_case" in inp or inp.get("driver") == "upsert":
+        u = inp.get("upsert_case") or c
+        r = upsert_case(((u[0][0], tuple(tuple(x) for x in u[0][1]), u[0][2]), u[1], u[2], u[3], tuple(u[4])))
+    elif inp.get("driver") == "pipeline":
         r = pipeline_case((c[0], [tuple(e[:1]) + (tuple(tuple(x) for x in e[1]),) + tuple(e[2:]) for e in c[1]]))
     else:
         r = emit_case([tuple(x) for x in c])
